@@ -164,12 +164,60 @@ pub fn divide_float<S: Src>(s: &mut S) {
     if y == 0.0 { s.check(r.is_none(), "finite_or_none"); } else { s.check(same(r, finite_or_none(x / y)), "finite_or_none"); }
 }
 
+/// float `//` where the quotient lies strictly inside the i32 range: the result is the integer n obtained by
+/// dropping the fraction of the quotient d (n <= d < n+1 for d >= 0, n-1 < d <= n for d < 0); divisor zero: undefined
 pub fn integer_divide_float<S: Src>(s: &mut S) {
     let x = s.f64();
     let y = s.f64();
     s.assume(x.is_finite() && y.is_finite());
     let r = Float(x).integer_divide(Float(y));
-    s.check(same(r, ref_float_integer_divide(x, y)), "float_exact_or_none");
+    if y == 0.0 { s.check(r.is_none(), "float_exact_or_none"); return; }
+    let d = x / y;
+    if d > -2147483649.0 && d < 2147483648.0 {
+        match r {
+            Some(Integer(n)) => {
+                let nf = n as f64;
+                s.check(if d >= 0.0 { nf <= d && d < nf + 1.0 } else { nf - 1.0 < d && d <= nf }, "float_exact_or_none");
+            }
+            _ => s.check(false, "float_exact_or_none"),
+        }
+    }
+}
+
+/// bounded stand-in for integer_divide_float (which needs a symbolic 64-bit float division, tier deep): operands
+/// restricted to quarters k/4 with k a 16-bit integer
+pub fn integer_divide_float_quarters_16bit<S: Src>(s: &mut S) {
+    let a = s.i32();
+    let b = s.i32();
+    s.assume(a >= -32768 && a <= 32767 && b >= -32768 && b <= 32767);
+    let x = (a as f64) * 0.25;
+    let y = (b as f64) * 0.25;
+    let r = Float(x).integer_divide(Float(y));
+    if b == 0 { s.check(r.is_none(), "float_exact_or_none"); return; }
+    // x / y = a / b exactly as a rational; truncation toward zero is Rust's integer division
+    s.check(same(r, Some(Integer(a / b))), "float_exact_or_none");
+}
+
+/// the same with 8-bit numerators (quick tier)
+pub fn integer_divide_float_quarters_8bit<S: Src>(s: &mut S) {
+    let a = s.i32();
+    let b = s.i32();
+    s.assume(a >= -128 && a <= 127 && b >= -128 && b <= 127);
+    let x = (a as f64) * 0.25;
+    let y = (b as f64) * 0.25;
+    let r = Float(x).integer_divide(Float(y));
+    if b == 0 { s.check(r.is_none(), "float_exact_or_none"); return; }
+    s.check(same(r, Some(Integer(a / b))), "float_exact_or_none");
+}
+
+/// float `//` where the quotient lies outside the i32 range: must be undefined (None), never another number
+pub fn integer_divide_float_out_of_range<S: Src>(s: &mut S) {
+    let x = s.f64();
+    let y = s.f64();
+    s.assume(x.is_finite() && y.is_finite());
+    let r = Float(x).integer_divide(Float(y));
+    let d = x / y;
+    if y != 0.0 && !(d > -2147483649.0 && d < 2147483648.0) { s.check(r.is_none(), "out_of_range_is_none"); }
 }
 
 pub fn unary_float<S: Src>(s: &mut S) {
